@@ -62,6 +62,15 @@ fn check_decoded(c: &Value, m: &ManifestContent, entries: &[(Vec<u8>, Vec<u8>)],
     if m.this_update() > m.next_update() {
         return Err(("times".into(), "thisUpdate after nextUpdate in a decoded manifest".into()));
     }
+    // what the iterators promise about their length holds too (size_hint brackets the number of entries they go on to yield)
+    let (lo, hi) = m.iter().size_hint();
+    let base0 = uri::Rsync::from_str(BASES[0]).unwrap();
+    let (lo2, hi2) = m.iter_uris(&base0).size_hint();
+    for (what, lo, hi) in [("iter", lo, hi), ("iter_uris", lo2, hi2)] {
+        if lo > entries.len() || hi.map(|h| h < entries.len()).unwrap_or(false) {
+            return Err(("len".into(), format!("{what}().size_hint() = ({lo}, {hi:?}) but the iterator yields {} entries", entries.len())));
+        }
+    }
     for base in BASES {
         let base = uri::Rsync::from_str(base).unwrap();
         let mut dir = base.clone();
@@ -130,6 +139,18 @@ pub fn replay(args: &[String]) {
     let data = b"manifest entry data";
     let mut sc = crate::sigobj::Ctx::new();
     let mut nth = 0usize;
+    // times that name no real instant (second 60, month 13, ...) written where an earlier nextUpdate follows: whatever such a
+    // manifest "means", it must not come out of the decoder as one whose thisUpdate is not after its nextUpdate
+    for (this, next) in [("20240630115960Z", "20240630115959Z"), ("240630115960Z", "240630115959Z"), ("20241330000000Z", "20241231000000Z"), ("20240230000000Z", "20240229000000Z")] {
+        let entries = vec![(b"a.cer".to_vec(), sha256(data))];
+        let bytes = manifest_der(&entries, this, next, false);
+        match guarded(|| Mode::Der.decode(bytes.as_ref(), ManifestContent::take_from)) {
+            Err(m) => s.violation("decode:panic", m, json!({"this": this, "next": next})),
+            Ok(Err(_)) => {}
+            Ok(Ok(m)) => s.violation("times", format!("a manifest written with thisUpdate {this} and nextUpdate {next} decodes (as {:?} / {:?})", m.this_update(), m.next_update()), json!({"this": this, "next": next})),
+        }
+        s.evals(1);
+    }
     for c in &cases {
         match c["op"].as_str().unwrap_or("") {
             "name" => {
